@@ -88,6 +88,12 @@ CLAIMED.update({
   note="Three defects found and repaired (empty STORE result, SREM/SMOVE leaving empty sets, SMOVE onto the same set losing the member). Not under contract: reply ordering/formatting, SRANDMEMBER/SPOP distribution, SSCAN (see C17), SINTERCARD's LIMIT counting, SADD/SISMEMBER/SMISMEMBER replies beyond the dictionary contracts. Shared items between a clone and its origin are harmless for sets (all values are struct{}{}), stated as an assumption.",
   design="DESIGN.md section 6 C05"),
 })
+CLAIMED.update({
+ "C02": dict(
+  text="Deductive proof of the decidable core of the string commands on the real code: INCR/DECR/INCRBY/DECRBY (addInt) report overflow exactly when the mathematical sum leaves int64 for every sign combination, return the sum otherwise, and leave the key untouched on overflow / wrong type / non-integer; SET's option table (setKey): NX on an existing key and XX on a missing key change nothing, GET on a non-string is a WRONGTYPE error without change, a performed SET binds the key to a fresh string object whose deadline is the old one exactly when KEEPTTL is given for an existing key and the requested one otherwise; MSET/MSETNX (setKeys): with NX, if any key exists the reply is 0 and nothing is changed, otherwise the reply is 1 and every key is present afterwards (loop invariants over the keyspace view); GETRANGE/SUBSTR return exactly the byte range redis defines (executable spec functions for negative and out-of-range offsets, mathematical integers with overflow obligations); SETRANGE rejects negative offsets and results above 512MB before anything is sized by the offset and is panic-free inside that range.",
+  note="Repaired: DECRBY of the minimum integer, GETRANGE with a negative end before the value, SETRANGE offset crashes. Not under contract: INCRBYFLOAT (floating point is outside the verifier's theories), LCS, APPEND/STRLEN/GETDEL/GETEX replies, expiry arithmetic of EX/PX/EXAT/PXAT (see C07), the grammar-driven argument parser (type assertions on its output are the UNDECIDED safety obligations listed under C13). strconv.ParseInt is an uninterpreted parse function.",
+  design="DESIGN.md section 6 C02"),
+})
 NOT_BUILT = {}
 ALL = ["C%02d" % i for i in range(1, 21)]
 
